@@ -440,7 +440,12 @@ func runRange(s *util.Session, rc RangeCase) (out ROut) {
 			Eq: f.BoundsAreEqual})
 	}
 	if r.Tup != nil {
-		out.Tup = keyCells(kd, r.Tup)
+		// BuildPermissive may put NULLs into NOT NULL fields: read by offset table, not by the descriptor's fixed layout
+		// (a tuple stores no trailing NULL fields: pad to the descriptor's width)
+		out.Tup = make([]*int64, kd.Count())
+		for i := 0; i < r.Tup.Count() && i < len(out.Tup); i++ {
+			out.Tup[i] = int32Field(r.Tup.GetField(i))
+		}
 	}
 	out.Contig, out.Skip = r.IsContiguous, r.SkipRangeMatchCallback
 	it, err := m.IterRange(s.Ctx, r)
